@@ -26,10 +26,15 @@ structure Cfg where
   no operand VALUE is copied into the function string when the element is defined (wave 6; the defective variant
   writes the number of a constant operand into the term of the element that uses it). -/
   operandsThroughMemo : Bool
+  /-- every reset path clears every store the lookup of `memoize` consults before it computes (wave 8; the defective
+  variant adds a second store — the latest lookups — which `Model.reset_cache` / `add_equation` clear but
+  `SimulationScenario.reset_cache`, which empties `model.memo` directly, does not know). -/
+  resetClearsAllStores : Bool
 deriving DecidableEq, Repr
 
 def Cfg.good (c : Cfg) : Bool :=
-  c.initialValueResetsCache && c.addEquationResetsCache && c.memoizeFirstStoreWins && c.operandsThroughMemo
+  c.initialValueResetsCache && c.addEquationResetsCache && c.memoizeFirstStoreWins && c.operandsThroughMemo &&
+    c.resetClearsAllStores
 
 /-- Uninterpreted carrier operations: `bin 0..3` = `+ - * /`, `max0 x` = `max(0, x)`. -/
 structure Ops (α : Type) where
@@ -141,6 +146,10 @@ structure St (α : Type) where
   /-- `model.points`: per table name the interpolation function of the table stored now (a plain dict:
   writing it does NOT touch the memo). -/
   lk : Nat → α → α := fun _ x => x
+  /-- the entries a lookup can still find in ANOTHER store after `model.memo` alone was emptied (every looked-up value
+  is recorded there too; an over-approximation of "the latest lookup per equation"). Only the scenario-level reset
+  of the defective variant ever reads it. -/
+  memo2 : Memo α := []
 
 inductive Op (α : Type) where
   | setEq (n : Nat) (e : Expr α)        -- `element.equation = e`
@@ -149,6 +158,8 @@ inductive Op (α : Type) where
   | reset                               -- `model.reset_cache()` / `scenario.reset_cache()`
   | eval (n k fuel : Nat)               -- `element(t_k)` / one requested value of a run
   | setPoints (p : Nat) (f : α → α)     -- `model.points["p"] = table` (f = its interpolation function); wave 2
+  | sreset                              -- `SimulationScenario.reset_cache()` (bptk.reset_scenario_cache, begin/end_session); wave 8
+  | rawEq (n : Nat) (e : Expr α)        -- `model.equations[n] = lambda` (scenario.setup_constants): plain dict write; wave 8
 
 def updFn {β : Type} (f : Nat → β) (n : Nat) (v : β) : Nat → β := fun i => if i = n then v else f i
 
@@ -178,17 +189,22 @@ def step {α : Type} (c : Cfg) (ops : Ops α) (s : St α) : Op α → St α
   | .setEq n e =>
       { s with eqn := updFn s.eqn n (some e)
                body := updFn s.body n (build s.dt (s.kind n) n (s.init n) (some (installed c s e)))
-               memo := [] }
+               memo := [], memo2 := [] }
   | .setInit n e =>
       { s with init := updFn s.init n e
                body := updFn s.body n (build s.dt (s.kind n) n e (s.eqn n))
-               memo := if c.initialValueResetsCache then [] else clearOwn s.memo n }
+               memo := if c.initialValueResetsCache then [] else clearOwn s.memo n
+               memo2 := if c.initialValueResetsCache then [] else clearOwn s.memo2 n }
   | .addEq n e =>
       { s with body := updFn s.body n e
-               memo := if c.addEquationResetsCache then [] else clearOwn s.memo n }
-  | .reset => { s with memo := [] }
-  | .eval n k fuel => { s with memo := (evalK (ops.withLk s.lk) s.body fuel s.memo (n, k)).1 }
+               memo := if c.addEquationResetsCache then [] else clearOwn s.memo n
+               memo2 := if c.addEquationResetsCache then [] else clearOwn s.memo2 n }
+  | .reset => { s with memo := [], memo2 := [] }
+  | .eval n k fuel => { s with memo := (evalK (ops.withLk s.lk) s.body fuel s.memo (n, k)).1
+                               memo2 := (evalK (ops.withLk s.lk) s.body fuel s.memo (n, k)).1 }
   | .setPoints p f => { s with lk := updFn s.lk p f }      -- plain dictionary write: the memo stays as it is
+  | .sreset => { s with memo := if c.resetClearsAllStores then [] else s.memo2 }
+  | .rawEq n e => { s with body := updFn s.body n e }       -- plain dictionary write: no store is touched
 
 def run {α : Type} (c : Cfg) (ops : Ops α) (s : St α) (h : List (Op α)) : St α := h.foldl (step c ops) s
 
@@ -208,6 +224,8 @@ def settledFrom {α : Type} : Bool → List (Op α) → Bool
   | _, .setInit _ _ :: r => settledFrom false r
   | _, .addEq _ _ :: r => settledFrom false r
   | _, .reset :: r => settledFrom false r
+  | _, .sreset :: r => settledFrom false r
+  | _, .rawEq _ _ :: r => settledFrom true r
 
 def settled {α : Type} (h : List (Op α)) : Bool := settledFrom false h
 
@@ -237,15 +255,18 @@ def stepSel {α : Type} (sel : St α → Nat → Nat → Bool) (ops : Ops α) (s
   | .setEq n e =>
       { s with eqn := updFn s.eqn n (some e)
                body := updFn s.body n (build s.dt (s.kind n) n (s.init n) (some e))
-               memo := clearSel s.memo (sel s n) }
+               memo := clearSel s.memo (sel s n), memo2 := [] }
   | .setInit n e =>
       { s with init := updFn s.init n e
                body := updFn s.body n (build s.dt (s.kind n) n e (s.eqn n))
-               memo := clearSel s.memo (sel s n) }
-  | .addEq n e => { s with body := updFn s.body n e, memo := clearSel s.memo (sel s n) }
-  | .reset => { s with memo := [] }
-  | .eval n k fuel => { s with memo := (evalK (ops.withLk s.lk) s.body fuel s.memo (n, k)).1 }
+               memo := clearSel s.memo (sel s n), memo2 := [] }
+  | .addEq n e => { s with body := updFn s.body n e, memo := clearSel s.memo (sel s n), memo2 := [] }
+  | .reset => { s with memo := [], memo2 := [] }
+  | .eval n k fuel => { s with memo := (evalK (ops.withLk s.lk) s.body fuel s.memo (n, k)).1
+                               memo2 := (evalK (ops.withLk s.lk) s.body fuel s.memo (n, k)).1 }
   | .setPoints p f => { s with lk := updFn s.lk p f }
+  | .sreset => { s with memo := [] }
+  | .rawEq n e => { s with body := updFn s.body n e }
 
 def runSel {α : Type} (sel : St α → Nat → Nat → Bool) (ops : Ops α) (s : St α) (h : List (Op α)) : St α :=
   h.foldl (stepSel sel ops) s
